@@ -3,7 +3,7 @@
    yielded with their byte offsets, then how the generator ended (None: normally; Some e: the exception).
    The loop of the model runs on fuel |insn| + 1;  nonneg insn: no byte is negative. *)
 From Coq Require Import ZArith List.
-Require Import V.Lib.Result V.Dex.SweepModel V.Dex.SweepProofs.
+Require Import V.Lib.Result V.Dex.SweepModel V.Dex.SweepProofs V.Dex.InsnSpec V.Dex.SweepStream.
 Import ListNotations.
 Open Scope Z_scope.
 
@@ -23,6 +23,41 @@ Proof. exact get_instructions_inside. Qed.
 Print Assumptions C02_yielded_objects_lie_inside_the_code.
 
 (* const/4 ; packed-switch-payload with one target ; then a payload header announcing more than there is: rejected *)
+(* the assembled stream: chunks (instructions, payloads) whose decoding does not depend on what follows them - see the
+   three theorems below for which chunks these are - written one after the other, followed by anything: the sweep over
+   exactly the declared size yields every item, in order, at its byte offset, and ends without an error *)
+Theorem C02_assembled_stream_is_recovered : forall odex chunks items after,
+  Forall2 (self_delimiting odex) chunks items ->
+  get_instructions odex (zlen (concat chunks) / 2) (concat chunks ++ after) 0 = (placed 0 chunks items, None) \/ zlen (concat chunks) mod 2 <> 0.
+Proof. exact get_instructions_of_stream. Qed.
+Print Assumptions C02_assembled_stream_is_recovered.
+(* an ordinary instruction: whatever its constructor accepts when given exactly its own bytes is such a chunk
+   (every translated constructor reads the first len bytes of the buffer and nothing else) *)
+Theorem C02_instructions_are_self_delimiting : forall odex c it,
+  2 <= zlen c -> sweep_one odex c (unit0 c) = Ok it -> it_kind it = 0 -> it_len it = zlen c -> self_delimiting odex c it.
+Proof. exact ordinary_chunk_self_delimiting. Qed.
+Print Assumptions C02_instructions_are_self_delimiting.
+(* the three payloads: for every size, key, width and data bytes the payload is read with its true length whatever follows,
+   and get_raw gives its bytes back *)
+Theorem C02_payloads_are_read_and_written_back :
+  (forall s0 s1 k0 k1 k2 k3 body rest, Forall byte [s0; s1; k0; k1; k2; k3] -> Forall byte body -> Z.of_nat (length body) = 4 * (s0 + 256 * s1) ->
+     let c := 0 :: 1 :: s0 :: s1 :: k0 :: k1 :: k2 :: k3 :: body in packed_switch (c ++ rest) = Ok {| it_len := zlen c; it_raw := Ok c; it_kind := 1 |}) /\
+  (forall s0 s1 keys targets rest, Forall byte [s0; s1] -> Forall byte keys -> Forall byte targets ->
+     Z.of_nat (length keys) = 4 * (s0 + 256 * s1) -> Z.of_nat (length targets) = 4 * (s0 + 256 * s1) ->
+     let c := 0 :: 2 :: s0 :: s1 :: keys ++ targets in sparse_switch (c ++ rest) = Ok {| it_len := zlen c; it_raw := Ok c; it_kind := 2 |}) /\
+  (forall w0 w1 n0 n1 n2 n3 data rest, Forall byte [w0; w1; n0; n1; n2; n3] ->
+     let width := w0 + 256 * w1 in let size := n0 + 256 * n1 + 65536 * n2 + 16777216 * n3 in
+     zlen data = (if (size * width) mod 2 =? 0 then size * width else size * width + 1) ->
+     let c := 0 :: 3 :: w0 :: w1 :: n0 :: n1 :: n2 :: n3 :: data in fill_array_data (c ++ rest) = Ok {| it_len := zlen c; it_raw := Ok c; it_kind := 3 |}).
+Proof. exact (conj packed_chunk (conj sparse_chunk fill_chunk)). Qed.
+Print Assumptions C02_payloads_are_read_and_written_back.
+(* const/4 v0, 1 ; packed-switch v0, +4 ; return-void ; nop ; packed-switch-payload (1 target) *)
+Example C02_stream_nonvacuous :
+  let chunks := [[18; 16]; [43; 0; 4; 0; 0; 0]; [14; 0]; [0; 0]; [0; 1; 1; 0; 5; 0; 0; 0; 2; 0; 0; 0]] in
+  map fst (fst (get_instructions false 12 (concat chunks) 0)) = [0; 2; 8; 10; 12] /\ snd (get_instructions false 12 (concat chunks) 0) = None /\
+  map (fun p => it_kind (snd p)) (fst (get_instructions false 12 (concat chunks) 0)) = [0; 0; 0; 0; 1].
+Proof. vm_compute. repeat split. Qed.
+
 Example C02_nonvacuous :
   let code := [18; 0; 0; 1; 1; 0; 5; 0; 0; 0; 7; 0; 0; 0; 0; 3; 4; 0; 9; 0; 0; 0; 1; 2] in
   map (fun p => (fst p, it_len (snd p), it_kind (snd p))) (fst (get_instructions false 12 code 0)) = [(0, 2, 0); (2, 12, 1)] /\
